@@ -54,11 +54,11 @@ func boundsFor(thorough bool) Bounds {
 	}
 	if thorough {
 		// all graphs with <= 3 instances; 4 instances: <= 1 two-input and <= 1 two-output fragment, one external output
-		return Bounds{MaxInst: 4, MaxExtIn: 2, MaxExtOut: 2, MaxFanout: 2, RestrictTop: true, TopMaxOut: 1}
+		return Bounds{MaxInst: 4, MaxExtIn: 2, MaxExtOut: 2, MaxFanout: 2, RestrictTop: true, TopMaxOut: 1, LongChains: true}
 	}
 	// all graphs with <= 2 instances; 3 instances: one external output
 	// plus every graph of 4 one-input one-output instances
-	return Bounds{MaxInst: 3, MaxExtIn: 2, MaxExtOut: 2, MaxFanout: 2, TopMaxOut: 1, UnaryExtra: 4}
+	return Bounds{MaxInst: 3, MaxExtIn: 2, MaxExtOut: 2, MaxFanout: 2, TopMaxOut: 1, UnaryExtra: 4, LongChains: true}
 }
 
 // ---- worker protocol ---------------------------------------------------------------------------------------------
